@@ -67,10 +67,14 @@ func (i *interpreter) fwrite(fr *frame, w value, bs []value) value {
 
 func extErrorf(fr *frame, a []value) value {
 	i := fr.i
-	format := a[0].(string)
 	args := a[1].([]value)
-	bs := i.sprintf(fr, format, args)
+	bs := i.sprintf(fr, a[0], args)
 	msg := mkstr(bs)
+	format, isConcrete := a[0].(string)
+	if !isConcrete {
+		// symbolic format: %w operands are not tracked (the message text is exact)
+		return i.callByName(fr, "errors.New", msg)
+	}
 	// %w operands
 	var wrapped []value
 	argN := 0
@@ -158,10 +162,85 @@ func litBytes(s string) []value {
 	return r
 }
 
+// resolveFormat turns a format string with symbolic bytes into a concrete one: a
+// symbolic byte that is neither '%' nor part of a directive becomes a private marker
+// byte (put back into the output afterwards); inside a directive a symbolic byte that
+// can be a flag / digit / verb character is concretised by forking, any other byte is
+// an unknown verb and is carried by a marker as well (Go prints "%!c(type=value)").
+func (i *interpreter) resolveFormat(fs sstr) (string, map[byte]value) {
+	const directiveChars = "+-# 0123456789.*[]vTtbcdoOqxXUeEfFgGspw%"
+	markers := map[byte]value{}
+	next := byte(1)
+	var out []byte
+	inDir := false
+	for _, b := range fs {
+		c, concrete := b.(uint8)
+		if !concrete {
+			t := i.term(b)
+			switch {
+			case !inDir && i.decide(i.ctx.Eq(t, i.ctx.BVConst(8, '%'))):
+				c, concrete = '%', true
+			case inDir:
+				var in *smt.Term = i.ctx.False
+				for k := 0; k < len(directiveChars); k++ {
+					in = i.ctx.Or(in, i.ctx.Eq(t, i.ctx.BVConst(8, uint64(directiveChars[k]))))
+				}
+				if i.decide(in) {
+					c, concrete = byte(i.concretiseTermMax(t, "fmt directive character", 64)), true
+				}
+			}
+		}
+		if !concrete {
+			for next == '%' || next == '\n' || next == '\t' {
+				next++
+			}
+			if next >= 32 {
+				panic(pathEnd{kind: "unsupported", msg: "format string with more than 28 symbolic bytes"})
+			}
+			markers[next] = b
+			out = append(out, next)
+			next++
+			inDir = false
+			continue
+		}
+		if c < 32 && c != '\n' && c != '\t' && c != '\r' {
+			panic(pathEnd{kind: "unsupported", msg: "control character in a format string with symbolic bytes"})
+		}
+		out = append(out, c)
+		switch {
+		case !inDir && c == '%':
+			inDir = true
+		case inDir && strings.IndexByte("+-# 0123456789.*[]", c) < 0:
+			inDir = false // a verb (or the second '%') ends the directive
+		}
+	}
+	return string(out), markers
+}
+
 func (i *interpreter) sprintf(fr *frame, formatV value, args []value) []value {
 	format, ok := formatV.(string)
 	if !ok {
-		panic(pathEnd{kind: "unsupported", msg: "symbolic format string"})
+		fs, isS := formatV.(sstr)
+		if !isS {
+			panic(pathEnd{kind: "unsupported", msg: "format string of unexpected representation"})
+		}
+		concrete, markers := i.resolveFormat(fs)
+		out := i.sprintf(fr, concrete, args)
+		seen := map[byte]int{}
+		for k, b := range out {
+			if c, ok := b.(uint8); ok {
+				if v, isM := markers[c]; isM {
+					out[k] = v
+					seen[c]++
+				}
+			}
+		}
+		for m := range markers {
+			if seen[m] != 1 {
+				panic(pathEnd{kind: "unsupported", msg: "format string with symbolic bytes: marker byte also occurs in an operand"})
+			}
+		}
+		return out
 	}
 	var out []value
 	argN := 0
@@ -199,10 +278,21 @@ func (i *interpreter) sprintf(fr *frame, formatV value, args []value) []value {
 			if k < len(format) && format[k] == '*' {
 				k++
 				if argN < len(args) {
-					v := int(i.intArg(args[argN].(iface).v, "fmt width"))
+					av := args[argN].(iface)
 					argN++
-					return v, true
+					isInt := false
+					if av.t != nil {
+						if b, ok := av.t.Underlying().(*types.Basic); ok && b.Info()&types.IsInteger != 0 {
+							isInt = true
+						}
+					}
+					if !isInt {
+						out = append(out, litBytes("%!(BADWIDTH)")...) // Go prints BADWIDTH / BADPREC; the distinction is not modelled
+						return 0, false
+					}
+					return int(i.intArg(av.v, "fmt width")), true
 				}
+				out = append(out, litBytes("%!(BADWIDTH)")...)
 				return 0, false
 			}
 			st := k
@@ -370,6 +460,30 @@ func (i *interpreter) formatString(fr *frame, sp spec, s value) []value {
 			panic(pathEnd{kind: "unsupported", msg: "flagged %q of a symbolic string"})
 		}
 		return strBytes(i.callByName(fr, "strconv.Quote", s))
+	}
+	if (sp.verb == 'x' || sp.verb == 'X') && !sp.hasW && !sp.hasP && sp.flags == "" {
+		// two hex digits per byte
+		var r []value
+		base := uint64('a')
+		if sp.verb == 'X' {
+			base = 'A'
+		}
+		digit := func(n *smt.Term) value {
+			c := i.ctx
+			lt10 := c.BvCmp(smt.OBvUlt, n, c.BVConst(8, 10))
+			return i.val(c.Ite(lt10, c.BvBin(smt.OBvAdd, n, c.BVConst(8, '0')), c.BvBin(smt.OBvAdd, n, c.BVConst(8, base-10))), types.Uint8)
+		}
+		for _, b := range ss {
+			t := i.term(b)
+			r = append(r, digit(i.ctx.BvBin(smt.OBvLshr, t, i.ctx.BVConst(8, 4))), digit(i.ctx.BvBin(smt.OBvAnd, t, i.ctx.BVConst(8, 15))))
+		}
+		return r
+	}
+	if strings.IndexByte("vsqxX", sp.verb) < 0 {
+		// a verb that does not apply to strings, or an unknown one: %!verb(string=value)
+		r := litBytes("%!" + string(sp.verb) + "(string=")
+		r = append(r, []value(ss)...)
+		return append(r, uint8(')'))
 	}
 	panic(pathEnd{kind: "unsupported", msg: fmt.Sprintf("%%%c of a symbolic string", sp.verb)})
 }
